@@ -414,18 +414,20 @@ func c12Aspects() []c12Aspect {
 			[]func(*c12Spec){pf(), pf(c12Pfx{P1, 100, 50}), pf(c12Pfx{P1, 100, 50}, c12Pfx{P2, 200, 100}), pf(c12Pfx{P148, 100, 50}, c12Pfx{P1, 100, 50})},
 			[]func(*c12Spec){pf(), pf(c12Pfx{P1, 100, 50}), pf(c12Pfx{P1, 100, 60}), pf(c12Pfx{P1, 110, 50}), pf(c12Pfx{P1, 110, 60}), pf(c12Pfx{P2, 200, 100}),
 				pf(c12Pfx{P1, 100, 50}, c12Pfx{P2, 200, 100}), pf(c12Pfx{P1, 100, 50}, c12Pfx{P2, 200, 90}), pf(c12Pfx{P148, 100, 60}), pf(c12Pfx{P2, 210, 100}, c12Pfx{P1, 100, 50}),
+				// differences of exactly one second
+				pf(c12Pfx{P1, 101, 50}), pf(c12Pfx{P1, 100, 51}), pf(c12Pfx{P1, 99, 49}),
 				// the same base address with two lengths in one RA (a /64 and its covering /48), both orders
 				pf(c12Pfx{P1, 110, 60}, c12Pfx{P148, 100, 50}), pf(c12Pfx{P148, 100, 50}, c12Pfx{P1, 110, 60}), pf(c12Pfx{P148, 120, 50}, c12Pfx{P1, 100, 50})})},
 		{"route", cross(
 			[]func(*c12Spec){rt(), rt(c12Rt{R1, "medium", 100}), rt(c12Rt{R1, "medium", 100}, c12Rt{R2, "high", 50}), rt(c12Rt{R156, "medium", 100}, c12Rt{R1, "medium", 100})},
 			[]func(*c12Spec){rt(), rt(c12Rt{R1, "medium", 100}), rt(c12Rt{R1, "medium", 90}), rt(c12Rt{R1, "high", 90}), rt(c12Rt{R1, "high", 100}), rt(c12Rt{R2, "high", 50}),
-				rt(c12Rt{R2, "high", 40}, c12Rt{R1, "medium", 100}), rt(c12Rt{R156, "medium", 90}), rt(c12Rt{R2, "low", 40}),
+				rt(c12Rt{R2, "high", 40}, c12Rt{R1, "medium", 100}), rt(c12Rt{R156, "medium", 90}), rt(c12Rt{R2, "low", 40}), rt(c12Rt{R1, "medium", 101}), rt(c12Rt{R1, "medium", 99}),
 				rt(c12Rt{R1, "medium", 90}, c12Rt{R156, "medium", 100}), rt(c12Rt{R156, "medium", 100}, c12Rt{R1, "medium", 90}), rt(c12Rt{R156, "medium", 80}, c12Rt{R1, "medium", 100})})},
 		{"rdnss", cross(
 			[]func(*c12Spec){dn(), dn(c12DNS{100, []string{S1, S2}}), dn(c12DNS{100, []string{S1}}, c12DNS{50, []string{S2}}), dn(c12DNS{100, []string{S1}}, c12DNS{100, []string{S1}})},
 			[]func(*c12Spec){dn(), dn(c12DNS{100, []string{S1, S2}}), dn(c12DNS{90, []string{S1, S2}}), dn(c12DNS{100, []string{S1, S3}}), dn(c12DNS{100, []string{S1}}),
 				dn(c12DNS{100, []string{S2, S1}}), dn(c12DNS{100, []string{S1}}, c12DNS{50, []string{S2}}), dn(c12DNS{100, []string{S1}}, c12DNS{60, []string{S3}}), dn(c12DNS{90, []string{S1, S3}}),
-				dn(c12DNS{50, []string{S2}}, c12DNS{100, []string{S1}}),
+				dn(c12DNS{50, []string{S2}}, c12DNS{100, []string{S1}}), dn(c12DNS{101, []string{S1, S2}}), dn(c12DNS{99, []string{S1, S2}}),
 				// two options with the *same* inconsistency each: one report per option
 				dn(c12DNS{90, []string{S1}}, c12DNS{90, []string{S1}}), dn(c12DNS{100, []string{S3}}, c12DNS{100, []string{S3}}), dn(c12DNS{90, []string{S1}}, c12DNS{40, []string{S2}})})},
 		{"dnssl", cross(
